@@ -6,6 +6,7 @@ import (
 	"fmt"
 	"os"
 	"path/filepath"
+	"strings"
 
 	"github.com/Comcast/sheens/verifrt/ref/rspecs"
 	"github.com/Comcast/sheens/verifrt/ref/rstep"
@@ -37,11 +38,13 @@ func C13sio(c *vh.Ctx) {
 			return // not a compilable specification as Go structures: nothing to compare with
 		}
 		want := rspecs.Trace(base, maxLen)
-		jsonPats := variant == "json-file/json-syntax" || variant == "yaml-file/json-syntax" || variant == "inline/json-syntax"
+		jsonPats := strings.HasSuffix(variant, "/json-syntax")
 		format := "json"
-		if variant == "yaml-file" || variant == "yaml-file/json-syntax" {
+		if strings.HasPrefix(variant, "yaml-file") {
 			format = "yaml"
 		}
+		// what the file is called says nothing about what is in it
+		fname := map[string]string{"json-file": "spec.json", "json-file-noext": "spec", "json-file-odd-ext": "door.spec", "yaml-file": "spec.yaml", "yaml-file-yml": "spec.yml", "yaml-file-noext": "spec"}[strings.TrimSuffix(variant, "/json-syntax")]
 		doc, ok := as.Doc(format, jsonPats)
 		if !ok {
 			return
@@ -50,14 +53,14 @@ func C13sio(c *vh.Ctx) {
 		switch variant {
 		case "inline", "inline/json-syntax":
 			src = map[string]interface{}{"inline": doc}
-		case "json-file", "json-file/json-syntax":
-			js, _ := json.Marshal(doc)
-			f := filepath.Join(dir, "spec.json")
-			os.WriteFile(f, js, 0o644)
-			src = map[string]interface{}{"url": "file://" + f}
 		default:
-			f := filepath.Join(dir, "spec.yaml")
-			os.WriteFile(f, []byte(rstep.YAML(doc)), 0o644)
+			f := filepath.Join(dir, fname)
+			if format == "json" {
+				js, _ := json.Marshal(doc)
+				os.WriteFile(f, js, 0o644)
+			} else {
+				os.WriteFile(f, []byte(rstep.YAML(doc)), 0o644)
+			}
 			src = map[string]interface{}{"url": "file://" + f}
 		}
 		var got string
@@ -81,7 +84,8 @@ func C13sio(c *vh.Ctx) {
 			c.Violation("C13/sio-loader/behaves-differently/"+variant, fmt.Sprintf("loaded through sio's ResolveSpecSource (%s) the specification behaves differently from its Go-structure rendering", variant), c13sioCase{Spec: as, Variant: variant})
 		}
 	}
-	variants := []string{"inline", "inline/json-syntax", "json-file", "json-file/json-syntax", "yaml-file", "yaml-file/json-syntax"}
+	variants := []string{"inline", "inline/json-syntax", "json-file", "json-file/json-syntax", "yaml-file", "yaml-file/json-syntax",
+		"json-file-noext/json-syntax", "json-file-odd-ext/json-syntax", "json-file-noext", "yaml-file-yml/json-syntax", "yaml-file-noext/json-syntax", "yaml-file-noext"}
 	if c.Replay != "" {
 		var cs c13sioCase
 		if c.LoadReplay(&cs) == nil && cs.Spec != nil {
@@ -89,7 +93,7 @@ func C13sio(c *vh.Ctx) {
 		}
 		return
 	}
-	c.Rule("(sio host loader) every specification of a family (two branches with every ordered pair of 11 patterns of every JSON shape - map with variable, bare string, bare variable, strings that look like JSON literals, number, bool, array with a variable, null values) given to sio.ResolveSpecSource inline, as a JSON file and as a YAML file (file:// URL), with inline patterns and with JSON-text patterns under patternSyntax json: the complete behaviour tree over all message sequences up to the bound over 11 messages must equal that of the Go-structure rendering.")
+	c.Rule("(sio host loader) every specification of a family (two branches with every ordered pair of 11 patterns of every JSON shape - map with variable, bare string, bare variable, strings that look like JSON literals, number, bool, array with a variable, null values) given to sio.ResolveSpecSource inline, as a JSON file and as a YAML file (file:// URL; files called spec.json / spec / door.spec and spec.yaml / spec.yml / spec), with inline patterns and with JSON-text patterns under patternSyntax json: the complete behaviour tree over all message sequences up to the bound over 11 messages must equal that of the Go-structure rendering.")
 	var idx uint64
 	for _, as := range rspecs.Family() {
 		for _, v := range variants {
